@@ -859,6 +859,26 @@ func runC02R3(c *Ctx) {
 						if n != f {
 							return false
 						}
+						// slices.Delete(l, 0, 1): the standard library's removal of the first element
+						if call, ok := st.Val.(*ssa.Call); ok {
+							tf := calleeFunc(&call.Call)
+							if tf == nil {
+								if sc := call.Call.StaticCallee(); sc != nil && sc.Origin() != nil {
+									tf, _ = sc.Origin().Object().(*types.Func)
+								}
+							}
+							if tf != nil && tf.Pkg() != nil && tf.Pkg().Path() == "slices" && tf.Name() == "Delete" && len(call.Call.Args) == 3 {
+								lo, ok1 := constInt(call.Call.Args[1])
+								hi, ok2 := constInt(call.Call.Args[2])
+								isList := false
+								for _, l := range leavesOf(call.Call.Args[0]) {
+									if l.Kind == leafFieldLoad && l.Field == f {
+										isList = true
+									}
+								}
+								return ok1 && ok2 && lo == 0 && hi == 1 && isList
+							}
+						}
 						sl, isSlice := st.Val.(*ssa.Slice)
 						if !isSlice {
 							return false
